@@ -9,7 +9,7 @@ TECHNIQUE = "deviation-bounded exhaustive enumeration of constructor argument tu
 RULE = ("42 command classes x every opcode-table entry under which a command set offers the command x all argument tuples that "
         "deviate from the baseline (required arguments 0, optional arguments omitted) in at most k dimensions (k=2 quick, 3 thorough); "
         "a dimension is one multi-bit argument ranging over its whole alphabet (all values up to 4 bits, else 0/1/max/max-1/every "
-        "2^i/every max-2^i/A5../5A..) or the full product of all 1-bit arguments (each omitted/0/1); tuples with at most one deviation are also passed positionally (signature order) and as int-subclass instances (bool for 0/1) and must give the same CDB. Non-trivial = at least one "
+        "2^i/every max-2^i/A5../5A..) or the full product of all 1-bit arguments (each omitted/0/1); tuples with at most one deviation are also passed positionally (signature order) and as int-subclass instances (bool for 0/1) and must give the same CDB; READ CD / READ / WRITE (10,12) also with the negative lead-in LBAs -1, -150, -45150, -2^31 (two's complement or refusal). Non-trivial = at least one "
         "deviation; distinct = distinct (class, table, tuple).")
 ASSUMPTIONS = [
     "oracle: vf/spec/cdb.py (Appendix A of DESIGN.md), whole-CDB comparison with the spec encoder: length, opcode, service action, every field, every other bit zero",
@@ -181,7 +181,32 @@ def conventions(name, st, key, point):
     return out
 
 
+NEG_CLASSES = ("ReadCd", "Read10", "Read12", "Write10", "Write12")
+NEG_LBAS = (-1, -150, -45150, -(1 << 31))
+
+
+def negative_lba(name, st, key, lba):
+    """MMC addresses the lead-in / pre-gap with negative logical block addresses (-45150 .. -1), carried as 32-bit two's complement.
+    Accepted: that encoding, or an explicit refusal; not accepted: any other bytes sent without complaint"""
+    cls = CS.get_class(name)
+    op = CS.get_opcode(st, key)
+    if op is None:
+        return []
+    point = dict(CS.baseline(name), lba=lba, tl=1)
+    kw = CS.build_kwargs(name, point)
+    try:
+        cdb = bytes(cls(op, **kw).cdb)
+    except Exception:   # noqa: BLE001 - a refusal is fine
+        return []
+    got = S.decode(name, cdb).get("lba")
+    if got != lba & 0xFFFFFFFF:
+        return [("negative_lba/%s" % name, "%s(lba=%d): the CDB %s carries LBA %#010x, two's complement is %#010x" % (name, lba, cdb.hex(), got, lba & 0xFFFFFFFF))]
+    return []
+
+
 def replay(case):
+    if case[0] == "neg":
+        return negative_lba(*case[1:])
     return run_case(case) + (conventions(*case[:4]) if len(case) == 4 else [])
 
 
@@ -211,6 +236,14 @@ def run_partition(part, tier, seed):
             S.CLASSES[name]["args"].get(a) in S.ALLOCATING and v > b["maxbuf"] // (3072 if name == "ReadCd" else 1) for a, v in p.items()))
     else:
         pts = CS.points(name, b["k"], b["maxbuf"])
+    if not wide and name in NEG_CLASSES:
+        for lba in NEG_LBAS:
+            case = ["neg", name, st, key, lba]
+            acc.case(case, nontrivial=True, key=repr(case))
+            v = negative_lba(name, st, key, lba)
+            for k, what in v:
+                acc.violation(k, what, case)
+            acc.outcome((name, "neg", lba, tuple(k for k, _ in v)))
     for point, r in pts:
         case = [name, st, key, point] + (["wide"] if wide else [])
         acc.case(case, nontrivial=r > 0, key=(name, st, key, wide, tuple(sorted(point.items()))))
